@@ -80,7 +80,7 @@ def run(run):
     if len(ecs) != 1:
         run.missing("C13.T2", "endorse_circle_span")
     else:
-        cls = [q for q in module_region(prog, ecs[0], stop=r"::(is_subset_of|endorse_\w+_span)$") if q != ecs[0]]
+        cls = [q for q in module_region(prog, ecs[0], stop=r"::is_subset_of$") if q != ecs[0]]
         loc = False
         for c in [ecs[0]] + cls:
             for bid, t in prog.calls(c):
@@ -94,7 +94,7 @@ def run(run):
     # the lookup must not depend on the absolute position (shared rule with C06.P1)
     if len(ecs) == 1:
         POSITIONAL = re.compile(r"span::Span::(bounds|cell_bounds|top_left|localize_point|is_bounded|hit_cell|extract)$")
-        for q in module_region(prog, ecs[0], stop=r"::(is_subset_of|endorse_\w+_span)$"):
+        for q in module_region(prog, ecs[0], stop=r"::is_subset_of$"):
             ex = Expr(prog, q)
             for bid, t in prog.calls(q):
                 n = Program.callee_name(t)
